@@ -439,9 +439,11 @@ async fn step(c: usize, cop: Cop) {
                     e(&[ev::REG as usize, o, c, if replace { 3 } else { 2 }, $ty, hid]);
                     if replace {
                         let old = $a.replace().await;
-                        e(&[ev::DROP as usize, hid]);
                         let inst = old.as_ref().and_then(|x| exec::aid_of_ctx(verif::addr_id(x)));
+                        // `replace` stores a clone in the registry and only then lets go of the
+                        // address it was called on: the registry's reference exists before ours ends
                         e(&[ev::RET as usize, o, ev::R_INST as usize, inst.map(|i| i + 1).unwrap_or(0)]);
+                        e(&[ev::DROP as usize, hid]);
                         drop(old);
                     } else {
                         match $a.register().await {
